@@ -237,7 +237,9 @@ def uniq(sequence: ArrayT, key: object = None) -> list[object]:
 
         return result
 
-    return [obj for i, obj in enumerate(sequence) if sequence.index(obj) == i]
+    # `sequence` is whatever `sequence_filter` could iterate, not necessarily a list.
+    items = sequence if isinstance(sequence, (list, tuple)) else list(sequence)
+    return [obj for i, obj in enumerate(items) if items.index(obj) == i]
 
 
 @sequence_filter
